@@ -72,7 +72,7 @@ def plan(tier, seed):
         traced = 4
     else:
         n_hist, n_fault, enum_cards = 1500, 3500, [("S3", "default"), ("V3", "default"), ("S3", "cached_amp"), ("S3", "base_factor"), ("H3", "default"), ("C4", "default"), ("S3", "no_id_cached")]
-        enum_budget = 0  # all sites
+        enum_budget = 260  # helper-layer sites completely (first/last occurrence), deep sites sampled up to this number
         traced = 160
     i = 0
     kinds = [None, None, "C4s", None, "C4", None, "V3", None, "C4s", "H3"]  # every card family gets its share
@@ -88,7 +88,7 @@ def plan(tier, seed):
     for card, strat in enum_cards:
         units = enum_units()
         for u in range(len(units)):
-            jobs.append({"mode": "seed", "kind": "enum", "seed": seed * 1000003 + i, "card_kind": card, "strategy": strat, "unit": u, "max_inject": enum_budget, "timeout": 900 if tier != "quick" else 200})
+            jobs.append({"mode": "seed", "kind": "enum", "seed": seed * 1000003 + i, "card_kind": card, "strategy": strat, "unit": u, "max_inject": enum_budget, "timeout": 1500 if tier != "quick" else 200})
             i += 1
     # long jobs first so that the tail is short
     jobs.sort(key=lambda j: {"enum": 0, "traced": 1, "history": 2}[j["kind"]])
